@@ -165,7 +165,8 @@ def _judge(case, r, p, m, u, v, idx, amb, zstep, fpos, d):
         want = red * base[0] * (fpos if scale_z else 1.0)
         sel = judged & ~miss & ~pm
         with np.errstate(all="ignore"):
-            mag = np.nansum(np.abs(col), axis=0).max(axis=-1, keepdims=True)      # rotated components may cancel to ~0
+            cs = c03.cell_layer_scale(name, m)
+            mag = np.nansum(np.where(idx >= 0, cs[np.where(idx >= 0, idx, 0)], np.nan), axis=0)[..., None]   # |vec| of the cells
             tol = 1e-9 * mag * base[0] * (zstep * fpos if scale_z else 1.0) + 1e-300
             wrong = sel[..., None] & (np.abs(got - want) > tol)
         if np.any(wrong):
